@@ -115,9 +115,11 @@ def r1_merge(ctx, MAX, cfgs=('dev', 'rel')):
             # mark where this iteration's pushes start
             s0.ghost['pushes_at_head'] = len(s0.ghost.get('pushes', []))
             out = []
-            for (i, a, b) in groups(mapping):
-                out.append(piece_inv(i, a, b, L1, S1, E1))
-                out.append(piece_inv(i, a, b, L2, S2, E2))
+            for (i0, a, b) in groups(mapping):
+                # the index kept next to a piece is that of the NEXT interval (reference form) or of the current one
+                for i in (i0, T.mk_add(i0, I(1))):
+                    out.append(piece_inv(i, a, b, L1, S1, E1))
+                    out.append(piece_inv(i, a, b, L2, S2, E2))
                 out.append(lt(LE, a))
             out.append(le(I(-1), LE))
             out.append(le(LE, I(MAX)))
@@ -136,11 +138,12 @@ def r1_merge(ctx, MAX, cfgs=('dev', 'rel')):
         _, head, hst, mapping, valid, _entry = heads[0]
         # identify the roles of the head variables from the surviving invariant
         roles = {}
-        for (i, a, b) in groups(mapping):
-            if piece_inv(i, a, b, L1, S1, E1) in valid:
-                roles['p1'] = (i, a, b)
-            if piece_inv(i, a, b, L2, S2, E2) in valid:
-                roles['p2'] = (i, a, b)
+        for (i0, a, b) in groups(mapping):
+            for i in (i0, T.mk_add(i0, I(1))):
+                if piece_inv(i, a, b, L1, S1, E1) in valid:
+                    roles['p1'] = (i, a, b)
+                if piece_inv(i, a, b, L2, S2, E2) in valid:
+                    roles['p2'] = (i, a, b)
         okinv = 'p1' in roles and 'p2' in roles and lt(LE, roles.get('p1', (0, LE, 0))[1]) in valid and lt(LE, roles.get('p2', (0, LE, 0))[1]) in valid
         ctx.obligation(okinv)
         (ctx.ok if okinv else ctx.violation)('C12.R1', 'C12.R1/merge_partitions/invariant:pieces-are-suffixes-after-last-emitted', fn.path, fn.site(),
@@ -151,9 +154,9 @@ def r1_merge(ctx, MAX, cfgs=('dev', 'rel')):
         ctx.sample({'rule': 'C12.R1', 'config': cfg, 'inferred_invariant': [T.show(v)[:200] for v in valid][:6]})
         # initial pieces: next_interval(p, 0)
         ev = dict(mapping)
-        ok0 = ev.get(i) == I(1) and ev.get(j) == I(1)
+        ok0 = T.subst(i, ev) == I(1) and T.subst(j, ev) == I(1)
         ctx.obligation(ok0)
-        (ctx.ok if ok0 else ctx.violation)('C12.R1', 'C12.R1/merge_partitions/starts-with-first-intervals', fn.path, fn.site(), {'i0': T.show(ev.get(i)), 'j0': T.show(ev.get(j))}, cfg)
+        (ctx.ok if ok0 else ctx.violation)('C12.R1', 'C12.R1/merge_partitions/starts-with-first-intervals', fn.path, fn.site(), {'i0': T.show(T.subst(i, ev)), 'j0': T.show(T.subst(j, ev))}, cfg)
         branch_roles = set()
         for (_, _, bst, bmap, bvalid, cur) in backs:
             ps = bst.ghost.get('pushes', [])[bst.ghost.get('pushes_at_head', 0):]
@@ -163,7 +166,7 @@ def r1_merge(ctx, MAX, cfgs=('dev', 'rel')):
                 ctx.violation('C12.R1', key0 + ':one-interval-per-iteration', fn.path, fn.site(), {'pushes': len(ps), 'leaf_constraints': [T.show(f) for f in bst.pc][-8:]}, cfg)
                 continue
             x, y, tgt = ps[0]
-            i2, a2, b2, j2, c2, d2 = [cur.get(v) for v in (i, a, b, j, c, d)]
+            i2, a2, b2, j2, c2, d2 = [T.subst(v, cur) for v in (i, a, b, j, c, d)]
             br = branch_name(ip, bst, a, b, c, d)
             branch_roles.add(br)
 
